@@ -28,6 +28,87 @@ def run(fx, rep, tier):
     pC05.rule_noblock(fx, rep, ex, arms, names=("SetOption", "IsReady"), rid="C13-NOLOCK")
     rule_consume(fx, rep, ex)
     rule_accept(fx, rep)
+    rule_name(fx, rep)
+
+
+STR_OPS = {
+    "to_string": lambda x: x, "to_owned": lambda x: x, "from": lambda x: x, "into": lambda x: x, "as_str": lambda x: x, "deref": lambda x: x,
+    "borrow": lambda x: x, "as_ref": lambda x: x, "clone": lambda x: x,
+    "trim": lambda x: x.strip(), "trim_end": lambda x: x.rstrip(), "trim_start": lambda x: x.lstrip(),
+    "to_lowercase": lambda x: x.lower(), "to_ascii_lowercase": lambda x: x.lower(),
+    "to_uppercase": lambda x: x.upper(), "to_ascii_uppercase": lambda x: x.upper(),
+}
+
+
+def str_transform(e):
+    """If `e` is a chain of modelled string operations applied to one parsed token, return a python function doing the same
+    to a string (the token itself is returned unchanged by the identity function); None if some step is not modelled."""
+    d = deep_strip(e)
+    if not (isinstance(d, tuple) and d and d[0] == "call" and isinstance(d[1], str)):
+        return None
+    last = d[1].split("::")[-1]
+    if find_calls(d, "Try>::branch") and not any(find_calls(a, "Try>::branch") for a in d[2][:1]):
+        return None
+    if last in ("branch",) or "Try>::branch" in d[1]:
+        return lambda x: x  # the parsed token itself
+    if last in STR_OPS and len(d[2]) >= 1:
+        inner = str_transform_or_leaf(d[2][0])
+        return (lambda x, f=STR_OPS[last], g=inner: f(g(x))) if inner else None
+    if last == "collect" and len(d[2]) == 1:
+        it = deep_strip(d[2][0])
+        if isinstance(it, tuple) and it and it[0] == "call" and str(it[1]).split("::")[-1] == "split_whitespace":
+            inner = str_transform_or_leaf(it[2][0])
+            return (lambda x, g=inner: "".join(g(x).split())) if inner else None
+    return None
+
+
+def str_transform_or_leaf(e):
+    d = deep_strip(e)
+    # projections out of the parser's result tuple: (.. as Continue).0.1
+    while isinstance(d, tuple) and d and d[0] in ("field", "as"):
+        d = deep_strip(d[1])
+    if isinstance(d, tuple) and d and d[0] == "call" and isinstance(d[1], str) and "Try>::branch" in d[1]:
+        return lambda x: x
+    return str_transform(e)
+
+
+def rule_name(fx, rep):
+    """The dispatcher compares the option name it receives with each option's NAME, exactly. The name it receives is whatever
+    the parser stores in UciCommand::SetOption.name: the operations applied to the parsed token there (to_string, trim,
+    case mapping, split_whitespace + collect ..) are applied here to every advertised NAME and must return it unchanged -
+    otherwise that option can no longer be set and the resulting Err ends the input loop (seed C13-5b: `Move Overhead`
+    arriving as `MoveOverhead`). Operations outside the modelled set leave the clause undecided."""
+    names = option_names(fx)
+    ok = True
+    n = 0
+    sites = 0
+    for b in fx.fn_bodies():
+        if "::tests::" in b.name:
+            continue
+        for bb, j, st in b.stmts():
+            rv = st.get("rv")
+            if not (rv and rv["k"] == "agg" and rv.get("agg") == "adt" and norm(rv["adt"]).endswith("UciCommand") and rv.get("variant") == "SetOption"):
+                continue
+            ops = dict(zip(rv["fields"], rv["ops"]))
+            if "name" not in ops:
+                continue
+            sites += 1
+            e = b.expr(ops["name"], expand_named=True, at=bb)
+            f = str_transform_or_leaf(e)
+            if f is None:
+                rep.notes.append(f"C13-NAME: the option name stored by `{b.name}` is computed by operations this rule does not model (`{show(e)[:80]}`); not decided")
+                continue
+            for ty, nm in sorted(names.items()):
+                n += 1
+                got = f(nm)
+                good = got == nm
+                rep.obligation(good)
+                if not good:
+                    ok = False
+                    rep.violation("C13-NAME", f"C13-NAME/{nm}", f"the parser hands `setoption name {nm} ..` to the dispatcher as `{got}`: the advertised option `{nm}` can no longer be set, and the handler's Err ends the input loop",
+                                  {"fn": b.name, "file": b.file, "line": st.get("line")})
+    rep.sample({"rule": "C13-NAME", "constructor_sites": sites, "advertised": sorted(names.values())})
+    rep.rule("C13-NAME", n, 0, ok, "advertised option names survive the parser's normalisation unchanged")
 
 
 def accept_eval(e, v, vals):
@@ -339,6 +420,10 @@ U = "src/engine/uci/mod.rs"
 O = "src/engine/uci/options.rs"
 TTF = "src/engine/transposition_table.rs"
 MUTANTS = [
+    {"name": "option name rebuilt without its spaces (seed C13-5b)", "expect": "C13-NAME/Move Overhead",
+     "edits": [("src/engine/uci/parser.rs", "            name: name.to_string(),\n            value: value.to_string(),", "            name: name.split_whitespace().collect(),\n            value: value.trim().to_string(),")]},
+    {"name": "benign: option name and value trimmed", "benign": True,
+     "edits": [("src/engine/uci/parser.rs", "            name: name.to_string(),\n            value: value.to_string(),", "            name: name.trim().to_string(),\n            value: value.trim().to_string(),")]},
     {"name": "Hash setter validates with a half-open range (seed C13-3)", "expect": "C13-ACCEPT/Hash",
      "edits": [(O, "        let hash_size = value.parse::<usize>().map_err(|_| \"Invalid value\")?;\n", "        let hash_size = value.parse::<usize>().map_err(|_| \"Invalid value\")?;\n\n        if let UciOptionType::Spin { min, max, .. } = Self::DEF {\n            if !(min..max).contains(&hash_size) {\n                return Err(format!(\"Value must be between {min} and {max}\"));\n            }\n        }\n")]},
     {"name": "benign: Hash setter validates with the closed range", "benign": True,
